@@ -63,6 +63,7 @@ type FuncSpec struct {
 	Props     []string // property ids this contract serves
 	NoBody    bool
 	Thread    string   // "any": may run on a goroutine that races with Shutdown: shared fields are unstable
+	Opaque    []string // spec functions whose definition is hidden in this function's queries
 	Holds     string   // monitor held at entry and exit (critical section spans the call)
 	Dead      []string // canaries that must be unreachable (proved, not assumed)
 	Callbacks map[string]string // callee expr -> callback contract name
@@ -191,7 +192,7 @@ func parseClause(text, file string, line int) Clause {
 var keywords = map[string]bool{"spec": true, "func": true, "trusted": true, "lemma": true, "requires": true,
 	"ensures": true, "ensures_on_panic": true, "may_panic": true, "modifies": true, "loop": true, "decreases": true,
 	"=": true, "witness": true, "ghost": true, "use": true, "assert": true, "replay_domain": true, "props": true,
-	"uninterpreted": true, "nobody": true, "callback": true, "end": true, "trigger": true, "ghostvar": true, "pred": true, "dead": true, "native": true, "callsite": true, "monitor": true, "lock": true, "cond": true, "protects": true, "owns": true, "invariant": true, "rely": true, "holds": true, "shared": true, "thread": true}
+	"uninterpreted": true, "nobody": true, "callback": true, "end": true, "trigger": true, "ghostvar": true, "pred": true, "dead": true, "native": true, "callsite": true, "monitor": true, "lock": true, "cond": true, "protects": true, "owns": true, "invariant": true, "rely": true, "holds": true, "shared": true, "thread": true, "opaque": true}
 
 // LoadSpecs reads every zz_contracts_verif.go below root plus extra files.
 func LoadSpecs(files []string) *Specs {
@@ -271,6 +272,8 @@ func (sp *Specs) loadFile(file string) {
 			for _, p := range strings.Split(rest, ",") {
 				curM.Shared = append(curM.Shared, strings.TrimSpace(p))
 			}
+		case "opaque":
+			mustF(curF, base, rl.line).Opaque = append(curF.Opaque, strings.Fields(rest)...)
 		case "thread":
 			mustF(curF, base, rl.line).Thread = strings.TrimSpace(rest)
 		case "owns":
